@@ -237,6 +237,24 @@ func vkLinearizable(init vkLinState, calls0 []vkCall, final vkLinState, evict bo
 	}
 	n := len(calls)
 	used := make([]bool, n)
+	// Whether the remaining calls can be ordered depends only on WHICH calls remain and on the set of reference
+	// states reached: a (remaining, states) pair that failed once fails always. Without this memo a history of
+	// many mutually overlapping pseudo-calls (clear = 6 per-key removals, evictions) costs a factorial.
+	failed := map[string]bool{}
+	memoKey := func(states []vkLinState) string {
+		var mask uint64
+		for i, u := range used {
+			if u {
+				mask |= 1 << uint(i)
+			}
+		}
+		ks := make([]string, len(states))
+		for i, s := range states {
+			ks[i] = s.key()
+		}
+		sort.Strings(ks)
+		return fmt.Sprintf("%x|%s", mask, strings.Join(ks, ";"))
+	}
 	var rec func(states []vkLinState, done int) bool
 	rec = func(states []vkLinState, done int) bool {
 		if done == n {
@@ -247,6 +265,13 @@ func vkLinearizable(init vkLinState, calls0 []vkCall, final vkLinState, evict bo
 				}
 			}
 			return false
+		}
+		mk := ""
+		if n <= 64 {
+			mk = memoKey(states)
+			if failed[mk] {
+				return false
+			}
 		}
 		for i := 0; i < n; i++ {
 			if used[i] {
@@ -285,6 +310,9 @@ func vkLinearizable(init vkLinState, calls0 []vkCall, final vkLinState, evict bo
 				return true
 			}
 			used[i] = false
+		}
+		if mk != "" {
+			failed[mk] = true
 		}
 		return false
 	}
